@@ -489,6 +489,47 @@ theorem slowDomain_bell_exact {F : FTy} (hF : IsLemireFloat F) {p eb : Nat} (lay
       _ = S * 10 ^ (-n.exponent).toNat * (10 ^ fl * 10 ^ (-n.explicitExp).toNat) := by
           rw [e3, Nat.pow_add]
 
+/-- the value of all the digits of a truncated `Number` is one of its true values -/
+theorem litFrac_tv_truncated (c : Cfg) (hr : c.mantissaRadix = 10) (n : Number) (hmany : n.manyDigits = true)
+    (hs : PlainSlices c n) (hN : 19 < (sigBytes n.integer n.fraction).length)
+    (hw : n.mantissa = ofDigits 10 (dv 10 ((sigBytes n.integer n.fraction).take 19)))
+    (hq : n.exponent = ((sigBytes n.integer n.fraction).length : Int) - 19 + n.explicitExp -
+      ((n.fraction.getD []).length : Int)) :
+    TrueValue 10 (numOf n) (litFrac 10 10 (numberLit c n)).1 (litFrac 10 10 (numberLit c n)).2 := by
+  have hnum : numOf n = ⟨n.mantissa, n.exponent, n.isNegative, true⟩ := by unfold numOf; rw [hmany]
+  have hvs : ValidDigits 10 (sigBytes n.integer n.fraction) := by
+    have := valid_sigBytes hs.validInt hs.validFrac
+    rwa [hr] at this
+  obtain ⟨z, hz⟩ := sig_decomp n.integer n.fraction
+  have hD : ofDigits 10 ((numberLit c n).intDigits ++ (numberLit c n).fracDigits) =
+      ofDigits 10 (dv 10 (sigBytes n.integer n.fraction)) := by
+    rw [hs.intDigits, hs.fracDigits, hr]
+    have : dv 10 n.integer ++ dv 10 (n.fraction.getD []) = dv 10 (n.integer ++ n.fraction.getD []) := by
+      unfold dv; rw [List.map_append]
+    rw [this, hz, ofDigits_dv_zeros]
+  have hfl : (numberLit c n).fracDigits.length = (n.fraction.getD []).length := by
+    rw [hs.fracDigits, dv_length]
+  have hE : (numberLit c n).exp = n.explicitExp := rfl
+  have hV : litFrac 10 10 (numberLit c n) =
+      (ofDigits 10 (dv 10 (sigBytes n.integer n.fraction)) * 10 ^ n.explicitExp.toNat,
+        10 ^ (n.fraction.getD []).length * 10 ^ (-n.explicitExp).toNat) := by
+    rw [litFrac_eq, hD, hfl, hE]
+  have hSsplit := C01Number.ofDigits_dv_take_drop 10 (sigBytes n.integer n.fraction) 19
+  have hStail := ofDigits_dv_lt (valid_drop hvs 19)
+  rw [← hw, List.length_drop] at hSsplit
+  rw [List.length_drop] at hStail
+  generalize hsig : sigBytes n.integer n.fraction = sig at *
+  generalize hS : ofDigits 10 (dv 10 sig) = S at *
+  generalize hfle : (n.fraction.getD []).length = fl at *
+  generalize htl : ofDigits 10 (dv 10 (List.drop 19 sig)) = tl at *
+  have hS1 : n.mantissa * 10 ^ (sig.length - 19) ≤ S := by omega
+  have hS2 : S < (n.mantissa + 1) * 10 ^ (sig.length - 19) := by
+    have : (n.mantissa + 1) * 10 ^ (sig.length - 19) = n.mantissa * 10 ^ (sig.length - 19) + 10 ^ (sig.length - 19) := by
+      ring
+    omega
+  rw [hnum, hV]
+  exact interval_tv S n.mantissa (sig.length - 19) fl n.exponent n.explicitExp n.isNegative hS1 hS2 (by omega)
+
 /-- **truncated `Number`s of a `compact` build** -/
 theorem slowDomain_bell_truncated {F : FTy} (hF : IsLemireFloat F) {p eb : Nat} (lay : Layout F p eb) (c : Cfg)
     (hr : c.mantissaRadix = 10) (hb : c.exponentBase = 10) (n : Number) (hmany : n.manyDigits = true)
